@@ -8,9 +8,11 @@ package aggregator
 // by the key hash, GetOrCreateMultiItem, MergeWithTLMultiItem); everything they call is the repo's code.
 
 import (
+	"fmt"
 	"pgregory.net/rand"
 
 	"github.com/VKCOM/statshouse/internal/data_model"
+	"github.com/VKCOM/statshouse/internal/data_model/gen2/tlmetadata"
 	"github.com/VKCOM/statshouse/internal/data_model/gen2/tlstatshouse"
 	"github.com/VKCOM/statshouse/internal/format"
 	"github.com/VKCOM/statshouse/internal/metajournal"
@@ -123,6 +125,27 @@ func VerifC03MultiValueMarshal(rng *rand.Rand, metricID int32, value *data_model
 		bucketUnknownTags: map[string]createMappingExtra{},
 	}
 	return multiValueMarshal(rng, metricID, nil, value, sf, ctx)
+}
+
+// VerifC03MultiValueMarshalMeta is the real multiValueMarshal for a USER metric whose meta (built by the real journal
+// ApplyEvent from JSON) carries the given skip flags; the metric cache is used twice so that both the first lookup and
+// the cached path (lastMetricID) are taken. Returns both outputs and the flags the real meta ended up with.
+func VerifC03MultiValueMarshalMeta(rng *rand.Rand, metricID int32, skipMin, skipMax, skipSq bool, value *data_model.MultiValue, sf float64) (first []byte, second []byte, ok bool) {
+	ms := metajournal.MakeMetricsStorage(nil)
+	data := fmt.Sprintf(`{"name":"verif_c03_m","kind":"value","skip_min_host":%v,"skip_max_host":%v,"skip_sum_square":%v}`, skipMin, skipMax, skipSq)
+	ms.ApplyEvent([]tlmetadata.Event{{Id: int64(metricID), Name: "verif_c03_m", EventType: format.MetricEvent, Version: 1, Data: data}})
+	meta := ms.GetMetaMetric(metricID)
+	if meta == nil || meta.SkipMinHost != skipMin || meta.SkipMaxHost != skipMax || meta.SkipSumSquare != skipSq {
+		return nil, nil, false
+	}
+	ctx := appendContext{
+		metricCache:       makeMetricCache(ms),
+		unknownTags:       map[string]createMappingExtra{},
+		bucketUnknownTags: map[string]createMappingExtra{},
+	}
+	first = multiValueMarshal(rng, metricID, nil, value, sf, ctx)
+	second = multiValueMarshal(rng, metricID, nil, value, sf, ctx)
+	return first, second, true
 }
 
 func VerifC03TableDesc() string { return getTableDesc() }
